@@ -40,6 +40,10 @@ def gen_case(rng: random.Random) -> dict[str, Any]:
             step["cancelNow"] = True
             if rng.random() < 0.6:
                 script.append({"at": at + 0.25, "op": "wait", "h": h})
+        if step["via"] == "task" and step["from"] == "owner" and rng.random() < 0.3:
+            sp = next(s for s in specs if s["h"] == h)
+            if "forever" in sp["beh"] or (sp["beh"]["ends"] >= 1 and sp["beh"]["exc"] is None):
+                sp["startDelay"] = 0.6          # takes task_status, calls started() 0.6 ticks after it began
         script.append(step)
     for s in specs:
         if "forever" in s["beh"] or rng.random() < 0.15:
@@ -86,13 +90,13 @@ class C09(Prop):
 
     def model_request(self, case, impl):
         return {"kind": "factory", "specs": case["specs"], "handler": case["handler"], "snap": sorted(case["pre_res"]),
-                "trace": [e["l"] for e in impl["trace"]]}
+                "trace": [e["l"] for e in impl["trace"] if e["l"][0] not in ("startedCalled", "waitAsked")]}
 
     def compare(self, case, impl, model):
         if impl["hang"]:
             return "the run did not finish"
         if not model["accepted"]:
-            tr = [e["l"] for e in impl["trace"]]
+            tr = [e["l"] for e in impl["trace"] if e["l"][0] not in ("startedCalled", "waitAsked")]
             return f"the observed trace is not a run of the model: label #{model['at']} not enabled: {tr[max(0, model['at'] - 5): model['at'] + 2]}"
         if not model["reported"]:
             return "no outcome was reported"
@@ -157,12 +161,12 @@ class C09(Prop):
         for e in tr:
             if e["l"][0] == "waitReturned":
                 h = e["l"][1]
-                reqs = [s["at"] for s in case["script"] if s["op"] == "wait" and s["h"] == h] or [0]
+                reqs = [x["t"] for x in tr if x["l"] == ["waitAsked", h]] or [0]
                 if h in end_t and all(abs(e["t"] - max(req, end_t[h])) > 1e-6 for req in reqs):
                     fails.append(f"wait_finished() of task {h} returned at t={e['t']}, the task ended at {end_t[h]}")
         # every wait_finished() on a spawned task returns once the task has ended
         for h in spawn_t:
-            asked = sum(1 for st in case["script"] if st["op"] == "wait" and st["h"] == h and st["at"] >= spawn_t[h])
+            asked = sum(1 for l in labels if l == ["waitAsked", h])
             got = sum(1 for l in labels if l == ["waitReturned", h])
             if got < asked and not crashed:
                 fails.append(f"wait_finished() of task {h} never returned for {asked - got} of its {asked} callers "
